@@ -3,9 +3,13 @@
 package main
 
 import (
+	"bytes"
 	"fmt"
 	"math"
 	"math/rand"
+	"os"
+	"os/exec"
+	"path/filepath"
 	"regexp"
 	"sort"
 	"strconv"
@@ -121,7 +125,52 @@ func c23Run(r *runCtx, id string, f []string) {
 		r.fail(id, "format-not-idempotent", "formatting the formatted text changes it: first %q second %q", text1, text2)
 		return
 	}
+	// the command as shipped: what `mfmt -prog f` prints and what `mfmt -prog f -write` leaves in
+	// the file is that same text
+	if bin := os.Getenv("VERIF_TOOL_MFMT"); bin != "" {
+		for _, wr := range []bool{false, true} {
+			out, err := runMfmt(bin, src, wr)
+			if err != nil {
+				r.fail(id, "mfmt-command", "mfmt (write=%v) failed on a program the formatter accepts: %v; source %q", wr, err, src)
+				return
+			}
+			if out != text1 {
+				r.fail(id, "mfmt-command", "mfmt (write=%v) produces %q, the formatter's text is %q", wr, out, text1)
+				return
+			}
+		}
+		r.stat("mfmt_command_runs")
+	}
 	r.ok(id)
+}
+
+// runMfmt runs the built cmd/mfmt on src and returns what it printed, or what it wrote back.
+func runMfmt(bin, src string, write bool) (string, error) {
+	dir, err := os.MkdirTemp("", "verif-mfmt")
+	if err != nil {
+		return "", err
+	}
+	defer os.RemoveAll(dir)
+	// the parser is given the file's path as the program name, which does not appear in the output
+	path := filepath.Join(dir, "p.mtail")
+	if err := os.WriteFile(path, []byte(src), 0o644); err != nil {
+		return "", err
+	}
+	args := []string{"-prog", path, "-logtostderr"}
+	if write {
+		args = append(args, "-write")
+	}
+	cmd := exec.Command(bin, args...)
+	var stdout, stderr bytes.Buffer
+	cmd.Stdout, cmd.Stderr = &stdout, &stderr
+	if err := cmd.Run(); err != nil {
+		return "", fmt.Errorf("%v: %s", err, strings.TrimSpace(stderr.String()))
+	}
+	if !write {
+		return stdout.String(), nil
+	}
+	b, err := os.ReadFile(path)
+	return string(b), err
 }
 
 // classifyFmt names the way the formatter lost something, so that distinct defects are distinct classes.
@@ -231,6 +280,11 @@ var c23Programs = []string{
 	"timer t\n/^(\\d+)$/ {\n  t = $1\n}\n",
 	"counter c\n/^(\\S+) (\\S+)/ {\n  $1 =~ /^f/ && $2 !~ \"ba+r\" {\n    c++\n  }\n}\n",
 	"counter c\n# a comment\n/x/ {  # trailing\n  c++\n}\n",
+	// characters that mean something to a printing routine: % in operators, strings and patterns
+	"gauge g\n/^(\\d+)$/ {\n  g = $1 % 7\n}\n",
+	"text t\n/^(\\d+)%$/ {\n  t = \"100%% of %d %s\" + $1\n}\n",
+	"counter c\n/^(\\d+)%%d$/ {\n  c++\n}\n",
+	"counter c by k\n/%v(?P<x>\\w+)%!/ {\n  c[\"%[1]d\"]++\n}\n",
 }
 
 func init() {
